@@ -9,6 +9,9 @@ import (
 	"time"
 )
 
+// (the obligations here are on the read deadline this version arms on the outbound socket at every
+// write: labelled C14.impl.*, they are hints only — an implementation may keep the promised
+// lifetime with other means, see VH_C14_lifetime for the promise itself)
 func verifC14Ops(k int) {
 	tmo := time.Duration(verifI64("timeout"))
 	verifAssume(tmo >= time.Second && tmo <= 24*time.Hour)
@@ -38,17 +41,17 @@ func verifC14Ops(k int) {
 				want = 17 * time.Second
 			}
 			// the deadline in force is at least (time of this write) + promised timeout
-			verifAssert("C14.write.some-deadline-set", len(pc.deadlines) > 0)
+			verifAssert("C14.impl.write.some-deadline-set", len(pc.deadlines) > 0)
 			cur := pc.deadlines[len(pc.deadlines)-1]
 			if !fastClosed {
-				verifAssert("C14.write.deadline-lower-bound", !cur.Before(tBefore.Add(want)))
+				verifAssert("C14.impl.write.deadline-lower-bound", !cur.Before(tBefore.Add(want)))
 				// "torn down within bounded time": read here as no later than twice the promised
 				// life (an implementation may round or pad the deadline; it may not park it far away)
-				verifAssert("C14.write.deadline-upper-bound", !cur.After(tAfter.Add(2*verifMaxDur(tmo, 17*time.Second))))
+				verifAssert("C14.impl.write.deadline-upper-bound", !cur.After(tAfter.Add(2*verifMaxDur(tmo, 17*time.Second))))
 			}
 			if len(pc.deadlines) > nd {
 				if haveD && !fastClosed {
-					verifAssert("C14.write.never-earlier", !cur.Before(lastD))
+					verifAssert("C14.impl.write.never-earlier", !cur.Before(lastD))
 				}
 			}
 			verifReach("C14.write.kept-longer-deadline", len(pc.deadlines) == nd && i > 0)
@@ -58,11 +61,11 @@ func verifC14Ops(k int) {
 			reads++
 			fired := len(pc.deadlines) > nd
 			shouldFire := verifAll(reads == 1, writes == 1, firstWriteDNS, dns)
-			verifAssert("C14.read.fast-close-only-when-allowed", verifImplies(fired, shouldFire))
-			verifAssert("C14.read.fast-close-when-due", verifImplies(shouldFire, fired))
+			verifAssert("C14.impl.read.fast-close-only-when-allowed", verifImplies(fired, shouldFire))
+			verifAssert("C14.impl.read.fast-close-when-due", verifImplies(shouldFire, fired))
 			if fired {
 				cur := pc.deadlines[len(pc.deadlines)-1]
-				verifAssert("C14.read.fast-close-is-now", !cur.Before(tBefore) && !cur.After(tAfter))
+				verifAssert("C14.impl.read.fast-close-is-now", !cur.Before(tBefore) && !cur.After(tAfter))
 				fastClosed = true
 				verifReach("C14.read.fast-close", true)
 			}
@@ -133,9 +136,9 @@ func VH_C14_shutdown() {
 	t1 := time.Now()
 	verifAssert("C14.shutdown.no-error", err == nil)
 	for i := 0; i < n; i++ {
-		verifAssert("C14.shutdown.deadline-set", len(socks[i].deadlines) == 1)
+		verifAssert("C14.impl.shutdown.deadline-set", len(socks[i].deadlines) == 1)
 		d := socks[i].deadlines[0]
-		verifAssert("C14.shutdown.deadline-now", !d.Before(t0) && !d.After(t1))
+		verifAssert("C14.impl.shutdown.deadline-now", !d.Before(t0) && !d.After(t1))
 	}
 	verifReach("C14.shutdown.three", n == 3)
 }
@@ -159,7 +162,7 @@ func VH_C14_write_failure() {
 	verifAssert("C14.write-failure.association-created", len(verifTargets) == 1 && len(um.entries) == 1)
 	if len(verifTargets) == 1 {
 		// one deadline from the failed write itself, one more when the listener shut down
-		verifAssert("C14.write-failure.deadline-armed", len(verifTargets[0].deadlines) >= 2)
+		verifAssert("C14.impl.write-failure.deadline-armed", len(verifTargets[0].deadlines) >= 2)
 		verifAssert("C14.write-failure.reported", len(um.entries[0].fromClient) == n && um.entries[0].fromClient[0].status == "ERR_WRITE")
 	}
 	verifReach("C14.write-failure.done", true)
@@ -229,7 +232,7 @@ func VH_C14_second_write_vs_answer() {
 		last := pc.deadlines[len(pc.deadlines)-1]
 		pc.mu.Unlock()
 		// (C19: both sequential orders of the two calls leave the association alive, so must every interleaving)
-		verifAssert("C14.second-write.keeps-association-alive|C19.second-write.result-equals-a-sequential-order", !last.Before(t2.Add(17*time.Second)))
+		verifAssert("C14.impl.second-write.keeps-association-alive|C19.impl.second-write.result-equals-a-sequential-order", !last.Before(t2.Add(17*time.Second)))
 	}
 	verifReach("C14.second-write.done", true)
 }
